@@ -162,10 +162,13 @@ struct OBox : IOpt
     }
     void verdict(hx::Out &o) const
     {
+        // the message state is read BEFORE checkValidity(), which itself stores a message when the state is invalid
+        const bool had_error = !opt->getLastError().empty();
         std::string msg = "unset";
         const bool cv = opt->checkValidity(&msg);
-        o.b("is_valid", opt->isValid()).b("as_bool", static_cast<bool>(*opt)).b("has_error", !opt->getLastError().empty());
+        o.b("is_valid", opt->isValid()).b("as_bool", static_cast<bool>(*opt)).b("has_error", had_error);
         o.b("check_validity", cv).b("check_msg_empty", msg.empty()).b("check_validity_nomsg", opt->checkValidity());
+        o.b("has_error_after", !opt->getLastError().empty());
     }
     WS *ws_of(const hx::json &cmd, Registry &reg)
     {
